@@ -99,9 +99,84 @@ def _g_spelling(rnd):
             rnd.randrange(len(_SEPS))]
 
 
+# legacy (non-UTF) charsets: texts for them are drawn from the charset's own repertoire, so that no UTF-8 fallback
+# happens, with weight on the characters that a *sibling* codec of the same family treats differently
+_FAMILIES = [["gb2312", "gbk", "gb18030"], ["shift_jis", "cp932", "shift_jisx0213"], ["euc-jp", "euc_jisx0213"], ["euc-kr", "cp949"],
+             ["big5", "big5hkscs", "cp950"], ["latin-1", "cp1252", "iso-8859-15"], ["iso-8859-2", "windows-1250"],
+             ["windows-1251", "iso-8859-5", "koi8-r", "koi8-u"], ["iso-8859-7", "windows-1253"], ["ascii", "latin-1"]]
+_LEGACY = ["gb2312", "GB2312", "gbk", "GBK", "gb18030", "shift_jis", "cp932", "euc-jp", "euc-kr", "cp949", "big5", "big5hkscs",
+           "latin-1", "cp1252", "iso-8859-15", "iso-8859-2", "windows-1250", "windows-1251", "iso-8859-5", "koi8-r", "koi8-u",
+           "iso-8859-7"]
+_alpha_cache = {}
+
+
+def _repertoire(codec):
+    """all characters the codec writes as one or two bytes and reads back (enumerated by decoding every 1- and 2-byte
+    sequence; deterministic order) -> {char: bytes}"""
+    rep = {}
+    dec = codecs.getdecoder(codec)
+    enc = codecs.getencoder(codec)
+    seqs = [bytes([a]) for a in range(256)] + [bytes([a, b]) for a in range(0x81, 0xFF) for b in range(0x30, 0x100)]
+    for bs in seqs:
+        try:
+            ch, n = dec(bs)
+            if n != len(bs) or len(ch) != 1 or enc(ch)[0] != bs:
+                continue
+        except (UnicodeError, ValueError):
+            continue
+        rep.setdefault(ch, bs)
+    return rep
+
+
+def _alphabet(charset):
+    """-> (all characters, characters on which a sibling codec disagrees) for a legacy charset, cached per process"""
+    name = codecs.lookup(charset).name
+    if name in _alpha_cache:
+        return _alpha_cache[name]
+    rep = _repertoire(name)
+    odd = []
+    for fam in _FAMILIES:
+        names = [codecs.lookup(f).name for f in fam]
+        if name not in names:
+            continue
+        for sib in names:
+            if sib == name:
+                continue
+            sdec, senc = codecs.getdecoder(sib), codecs.getencoder(sib)
+            for ch, bs in rep.items():
+                try:
+                    same = sdec(bs)[0] == ch and senc(ch)[0] == bs
+                except (UnicodeError, ValueError):
+                    same = False
+                if not same:
+                    odd.append(ch)
+    chars = [c for c in rep if ord(c) >= 0x80]
+    _alpha_cache[name] = (chars or list(rep), sorted(set(odd)))
+    return _alpha_cache[name]
+
+
+def _g_legacy_text(rnd, charset):
+    chars, odd = _alphabet(charset)
+    out = []
+    for _ in range(rnd.randint(1, 6)):
+        r = rnd.random()
+        if r < 0.45 and odd:
+            out.append(pick(rnd, odd))
+        elif r < 0.8:
+            out.append(pick(rnd, chars))
+        else:
+            out.append(text(rnd, _ASCII, 1, 4))
+    return "".join(out)
+
+
 def build(rnd):
-    s = canon("".join(_g_piece(rnd) for _ in range(rnd.randint(1, 6))))
-    return [rnd.random() < 0.5, pick(rnd, TYPES), pick(rnd, CHARSETS), pick(rnd, _CODINGS), s, _g_spelling(rnd)]
+    if rnd.random() < 0.25:
+        charset = pick(rnd, _LEGACY)
+        s = _g_legacy_text(rnd, charset)
+    else:
+        charset = pick(rnd, CHARSETS)
+        s = canon("".join(_g_piece(rnd) for _ in range(rnd.randint(1, 6))))
+    return [rnd.random() < 0.5, pick(rnd, TYPES), charset, pick(rnd, _CODINGS), s, _g_spelling(rnd)]
 
 
 def _content_type(mtype, charset, spelling):
